@@ -238,11 +238,12 @@ func CSVProducer(opts ...CSVOpt) Producer {
 			})
 
 			pipe.Go(func() error {
-				defer func() {
-					_ = r.Close()
-				}()
+				err := pipeCSV(csvWriter, csvReader, o)
+				// a writer still blocked in WriteTo fails with the CSV error, not with io.ErrClosedPipe:
+				// whichever goroutine reports first, the caller gets the parser's error
+				_ = r.CloseWithError(err)
 
-				return pipeCSV(csvWriter, csvReader, o)
+				return err
 			})
 
 			return pipe.Wait()
